@@ -242,6 +242,67 @@ prop("C06",
      )
 
 
+# ---------------------------------------------------------------------------------------------
+# C02 C03 C04 C11 documents
+def _doc(tier, seed, gen, out, extra_q=(), extra_t=()):
+    return ["doc", "-out", out, "-seed", str(seed)] + _t(tier, ["-n", "2500", "-walks", "400", "-reps", "8"] + list(extra_q),
+                                                          ["-n", "60000", "-walks", "20000", "-reps", "24"] + list(extra_t))
+
+
+_doc_common = dict(
+    family="doc",
+    mc=lambda tier: [("MC_Document", "MC_Document.cfg")],
+    trace=("Trace_Document", "Trace_Document.cfg"),
+    required=["kind:null", "kind:one", "kind:many", "kind:ident", "kind:idents", "kind:errors", "coll:resources",
+              "coll:soft", "coll:wrapcol", "impl:soft", "impl:wrap", "included", "attrs-exposed", "rel-data:absent",
+              "rel-data:null", "rel-data:one", "rel-data:many", "include:added", "include:skipped", "include:resources"],
+    assumptions=["fixed two-type schema (t1: 2 attributes, to-one, to-many; t2: attribute, to-one), soft or struct-backed",
+                 "documents are generated by the driver (seeded), TLC judges every recorded document",
+                 "attribute values are representatives from the value tables; ids, prefixes and meta come from small "
+                 "vocabularies containing characters JSON and URLs must escape"],
+    coverage=False,
+)
+prop("C02", driver=_doc,
+     level_text="TLC model-checks an operational MarshalDocument/Include over 28,752 documents (structure, selection, "
+                "no leak, unique linkage); the driver builds seeded documents of every primary-data kind and "
+                "container with the real library, marshals, unmarshals against the same schema and projects both "
+                "sides; TLC's monitor judges RoundTrip: same shape, same resources in order with equal selected "
+                "values, same included pairs with equal values, JSON-equal meta, same error objects and no data.",
+     level_note="A SoftCollection / WrapperCollection comes back as *Resources (one Go container per JSON shape): "
+                "only the shape is compared. Identifier documents come back as resources with that type and id.",
+     **_doc_common)
+prop("C03", driver=_doc,
+     level_text="Same specification and traces; WellFormed (top-level object, jsonapi, self link, never data with "
+                "errors, included only with data, every resource object with string type/id and the self link made of "
+                "prefix/type/id, every relationship object with self and related links and data null / identifier / "
+                "list) and NoDupLinkage are judged on the parsed output of every real MarshalDocument; "
+                "Document.Include is an action (IncludeRes) model-checked for unique linkage and judged on seeded "
+                "walks of Include calls over every container, in particular *Resources.",
+     level_note="Link texts are recomputed by the driver from prefix, type and id (string concatenation) and reported "
+                "as booleans; ids contain JSON-escaped, non-ASCII and URL-reserved characters.",
+     **_doc_common)
+prop("C04", driver=lambda tier, seed, gen, out: _doc(tier, seed, gen, out, ["-systematic"], ["-systematic"]),
+     level_text="Same specification and traces; Selected is judged on every resource object of every real output: "
+                "attribute names = type's attributes in the selection, relationship names likewise, data present iff "
+                "requested, ids = the related ids with the target type, null for an empty to-one. Besides the seeded "
+                "documents, every subset of t1's four fields x {plain, +id, +unknown, duplicate, missing entry, empty "
+                "entry} x five relationship-data requests x three positions (single, collection member among other "
+                "types, included beside another type) is enumerated.",
+     level_note="The no-leak law is also an invariant of the operational model (MC_Document InvNoLeak).",
+     **_doc_common)
+prop("C11", driver=_doc,
+     mc_extra=[("MC_MarshalSched", "MC_MarshalSched_1.cfg"), ("MC_MarshalSched", "MC_MarshalSched_2.cfg"),
+               ("MC_MarshalSched", "MC_MarshalSched_3.cfg")],
+     level_text="Same specification and traces; each document is marshaled 8 (quick) / 24 (thorough) times plus from "
+                "three fresh builds - two of them with to-many ids, selection names, relationship-data names and "
+                "included resources permuted - and all outputs must be byte-identical; everything readable from the "
+                "resources and the URL is snapshotted before and after (to-many ids and listed names as multisets).",
+     level_note="Go randomises the start of every map iteration, so repetition samples the iteration orders; they "
+                "cannot be forced from outside the runtime. The model-level exploration of all iteration orders is in "
+                "MC_MarshalSched (see DESIGN.md).",
+     **_doc_common)
+
+
 def run(pid, tier, seed):
     P = PROPS[pid]
     if "run" in P:
@@ -256,7 +317,7 @@ def run_family(pid, tier, seed):
     try:
         drv = V.build_driver(race=P.get("race", False))
         mcs = []
-        for (mod, cfg) in P["mc"](tier):
+        for (mod, cfg) in list(P["mc"](tier)) + list(P.get("mc_extra", [])):
             mcs.append(V.model_check(scr, mod, cfg, coverage=(tier == "thorough" and P.get("coverage", True))))
         gen_path = ""
         if P.get("gen"):
